@@ -5,6 +5,8 @@ import NflowsModel.Lemmas.SplineTotal
 import NflowsModel.Lemmas.RQWhole
 import NflowsModel.Lemmas.RQInverseWhole
 import Mathlib.Tactic
+import NflowsModel.Lemmas.CubicWhole
+import NflowsModel.Lemmas.QuadWhole
 /-!
 # C17 — out-of-domain inputs are rejected, in-domain inputs never fail
 
@@ -133,5 +135,28 @@ theorem rq_inverse_in_domain_total (e : Float → ℝ) (c : RQCfg) (uw uh ud : L
     (∃ r, rqSpline (NF.realX e) c uw uh ud true y = .ok r) ∧
     0 ≤ RQInverseWhole.binDisc e c uw uh ud (RQInverseWhole.idxI e c uh y) y :=
   ⟨⟨_, RQInverseWhole.exec_ok hv y hy0 hy1⟩, RQInverseWhole.disc_nonneg hv y hy0 hy1⟩
+
+/-- **in-domain inputs never fail, cubic forward**: both slope gathers and all seven bin gathers are in range -/
+theorem cubic_forward_in_domain_total (e : Float → ℝ) (c : CCfg) (uw uh : List ℝ) (udl udr : ℝ)
+    (hv : CubicWhole.CubicValid e c uw uh) (x : ℝ) (hx0 : e c.box.left ≤ x) (hx1 : x ≤ e c.box.right) :
+    ∃ r, cubicSpline (NF.realX e) c uw uh udl udr false x = .ok r :=
+  CubicWhole.exec_total hv x hx0 hx1
+
+/-- **in-domain inputs never fail, quadratic forward**, bounded shape and tails shape with `K ≥ 2` -/
+theorem quad_forward_in_domain_total (e : Float → ℝ) (c : QCfg) (uw uh : List ℝ)
+    (hv : QuadWhole.QuadValid e c uw uh ∨ QuadWhole.QuadValidT e c uw uh) (x : ℝ) (hx0 : e c.box.left ≤ x) (hx1 : x ≤ e c.box.right) :
+    ∃ r, quadSpline (NF.realX e) c uw uh false x = .ok r := by
+  rcases hv with hv | hv
+  · exact QuadWhole.total hv x hx0 hx1
+  · exact ⟨_, QuadWhole.exec_eq_bin_T hv x hx0 hx1⟩
+
+/-- **the full-strength statement is FALSE for the quadratic spline with linear tails and ONE bin** (known finding F27):
+    with `K = 1` there are no interior heights, the program indexes the empty list and fails with an index error on EVERY
+    in-domain input — in the model, and in the code (`PiecewiseQuadraticCDF(shape, num_bins=1, tails='linear')` constructs,
+    every call raises `IndexError`).  Hence `K ≥ 2` in the tails half of `quad_forward_in_domain_total`. -/
+theorem quad_tails_one_bin_counterexample (e : Float → ℝ) (c : QCfg) (w x : ℝ) (hx0 : e c.box.left ≤ x) (hx1 : x ≤ e c.box.right)
+    (hgW : ¬ (c.minW * ([w] : List ℝ).length.toFloat > 1.0)) (hgH : ¬ (c.minH * ([w] : List ℝ).length.toFloat > 1.0)) :
+    quadSpline (NF.realX e) c [w] [] false x = .error .indexError :=
+  QuadWhole.tails_one_bin_error w x hx0 hx1 hgW hgH
 
 end Properties.C17
